@@ -691,6 +691,16 @@ fn mismatch_violations(prop: &str, res: &Value, class: &str) -> Vec<Violation> {
 
 /// Writes `n` mixed C18/C19 scripts (with expectations) to `path`: input of the valgrind supplementary screen.
 pub fn write_scripts(seed: u64, n: usize, path: &str) -> i32 {
+    if std::env::var("BVMON_C18_SCRIPTS").is_ok() {
+        // exactly the scripts `c18` generates for this seed (debugging aid)
+        let mut rng = Sm::derive(seed, 0xC18);
+        let scratch = std::env::var("BVMON_SCRATCH").unwrap_or_else(|_| "/tmp".into());
+        let scripts: Vec<Value> = (0..n).map(|i| if i % 2 == 0 { gen_orderbook_script(i, &mut rng, 150, &scratch).script } else { gen_stepenv_script(i, &mut rng, 150).script }).collect();
+        return match std::fs::write(path, serde_json::to_string(&json!({"scripts": scripts, "doc_tables": false})).unwrap()) {
+            Ok(()) => 0,
+            Err(_) => 2,
+        };
+    }
     let mut rng = Sm::derive(seed, 0xE87A);
     let scratch = std::env::var("BVMON_SCRATCH").unwrap_or_else(|_| "/tmp".into());
     std::fs::create_dir_all(&scratch).ok();
@@ -788,8 +798,18 @@ pub fn c18(ctx: &Ctx) -> i32 {
             }
         }
     }
+    // scripts whose second opinion could not be settled (too many instructions without a visible time-stamp): tolerated in
+    // small numbers next to the scripts that were settled, otherwise the run says nothing
+    if let Ok(r) = &res {
+        let uns = r["alt_unsettled_scripts"].as_u64().unwrap_or(0);
+        let alt = r["alt_schedule_scripts"].as_u64().unwrap_or(0);
+        if uns > 3u64.max(alt / 10) && violations.is_empty() && inconclusive.is_none() {
+            inconclusive = Some(format!("{} StepEnv scripts differ from the Rust twin and their schedules could not be settled ({} could)", uns, alt));
+        }
+    }
     if inconclusive.is_none() {
-        inconclusive = floors(&[("python_calls_executed", executed, (calls as u64) * 9 / 10), ("exceptions_observed", py_exc, 200), ("snapshots_python_to_rust", cross_rs, 50), ("scripts_that_traded", traded as u64, 100)]);
+        let executed_floor = if res.as_ref().map(|r| r["alt_schedule_scripts"].as_u64().unwrap_or(0) > 0).unwrap_or(false) { (calls as u64) / 3 } else { (calls as u64) * 9 / 10 };
+        inconclusive = floors(&[("python_calls_executed", executed, executed_floor), ("exceptions_observed", py_exc, 200), ("snapshots_python_to_rust", cross_rs, 50), ("scripts_that_traded", traded as u64, 100)]);
         if !violations.is_empty() {
             inconclusive = None;
         }
@@ -797,13 +817,16 @@ pub fn c18(ctx: &Ctx) -> i32 {
     let cov = json!({
         "evaluations": executed,
         "distinct_nontrivial": d.len(),
-        "rule": "cases = Python calls executed on the real compiled extension under CPython (scripts of ~150 calls over the non-numpy API of bourse.core.OrderBook and bourse.core.StepEnv: place/cancel/modify/set_time/toggles/step/all getters and properties/snapshots, in-range, off-grid and out-of-range arguments), each compared with the value the Rust core (bourse_book / bourse_de driven by the same call sequence and seed) yields; off-grid -> ValueError, out-of-range -> OverflowError, both followed by get_orders/get_trades/bid_ask to show the object is unchanged; snapshots cross-loaded both ways; distinct = distinct scripts; non-trivial = the script traded and raised at least one exception",
+        "rule": "cases = Python calls executed on the real compiled extension under CPython (scripts of ~150 calls over the non-numpy API of bourse.core.OrderBook and bourse.core.StepEnv: place/cancel/modify/set_time/toggles/step/all getters and properties/snapshots, in-range, off-grid and out-of-range arguments), each compared with the value the Rust core (bourse_book / bourse_de driven by the same call sequence and seed) yields; off-grid -> ValueError, out-of-range -> OverflowError, both followed by get_orders/get_trades/bid_ask to show the object is unchanged; snapshots cross-loaded both ways; a StepEnv script whose values differ from the twin's gets a second opinion before it is reported: replayed on two objects (determinism), each step's processing order inferred from the time-stamps and reproduced on a plain Python OrderBook, every scripted getter recomputed from the object's own orders and trades; scripts that pass follow another valid schedule (another generator in the binding) and are only reported if, over all their steps, the last time slot of the batch is used significantly more or less often than a uniform shuffle of the whole batch allows (Hoeffding, 1e-9): that is the trace of instructions dropped, added or re-ordered before the shuffle; distinct = distinct scripts; non-trivial = the script traded and raised at least one exception",
         "samples": [sample],
         "scripts": n_scripts,
         "calls_generated": calls,
         "exceptions_expected": excs,
         "exceptions_observed": py_exc,
         "scripts_that_traded": traded,
+        "stepenv_scripts_on_another_valid_schedule_than_the_twin": res.as_ref().map(|r| r["alt_schedule_scripts"].clone()).unwrap_or(Value::Null),
+        "stepenv_scripts_whose_schedule_could_not_be_settled": res.as_ref().map(|r| r["alt_unsettled_scripts"].clone()).unwrap_or(Value::Null),
+        "last_slot_test_over_those_scripts": res.as_ref().map(|r| r["alt_schedule_last_slot"].clone()).unwrap_or(Value::Null),
         "scripts_with_exceptions": with_exc,
         "snapshots_python_to_rust": cross_rs,
         "python": res.as_ref().ok().map(|r| r["python"].clone()),
